@@ -348,6 +348,29 @@ impl Property for C12 {
                 ensure!(flags_of(last).contains(PathFlags::PARK), "the parking pose is the last waypoint", "last waypoint {:?}", last);
                 let pp = fk(&last.joints);
                 ensure!(dist(&pp.p, &s.poses[n - 1].p) <= tol_p && rot_angle(&pp.r, &s.poses[n - 1].r) <= 1e-5, "the PARK waypoint reproduces the parking pose", "dp={:e} dang={:e}", dist(&pp.p, &s.poses[n - 1].p), rot_angle(&pp.r, &s.poses[n - 1].r));
+                // continuity of the whole joint path, whatever produced a waypoint: consecutive waypoints are either a small joint-space
+                // (RRT) step, at most three planner steps apart, or a Cartesian transition within the configured cost limit
+                if c.include {
+                    for i in 0..path.len() - 1 {
+                        let (a, b) = (&path[i].joints, &path[i + 1].joints);
+                        let d = (0..6).map(|k| (a[k] - b[k]).powi(2)).sum::<f64>().sqrt();
+                        let cost: f64 = (0..6).map(|k| (a[k] - b[k]).abs() * coeffs[k]).sum();
+                        ensure!(
+                            d <= 3.0 * rrt_step + 1e-9 || cost <= max_cost + 1e-9,
+                            "the joint path is continuous: consecutive waypoints are a small joint-space step or a Cartesian transition within the configured cost",
+                            "[{} threads] jump between waypoint {} ({:?}) and waypoint {} ({:?}): joint distance {:.4} rad (3 RRT steps = {:.4}), transition cost {:.4} (limit {:.4})",
+                            threads,
+                            i,
+                            path[i],
+                            i + 1,
+                            path[i + 1],
+                            d,
+                            3.0 * rrt_step,
+                            cost,
+                            max_cost
+                        );
+                    }
+                }
                 if gap_closed {
                     // RRT gap closing happened: intermediate nodes are joint-space moves by design.
                     // The original poses must still be present in order.
